@@ -39,6 +39,11 @@ def programs(t):
     for (l, r) in [('EU7', 'E7'), ('E7', 'EU7'), ('EU7', 'EU7'), ('EU15', 'E3'), ('E3', 'EU15'), ('E15', 'EU7')]:
         for (le, re) in ([(-2, -3), (0, 0)] if not t else [(-2, -3), (0, 0), (3, -1), (-8, -8)]):
             lines.append('PQ(%s, %d, %s, %d)' % (l, le, r, re))
+    # unsigned elastic operands whose digits fill the storage word (top bit in use), and pairs from two families
+    # (built-in rep with unsigned elastic rep: the built-in operand is lifted into the elastic family)
+    for (l, r) in [('EU32', 'E7'), ('E7', 'EU32'), ('EU32', 'E31'), ('EU64', 'E15'), ('i8', 'EU7'), ('EU7', 'i8'), ('i32', 'EU15'), ('EU32', 'i32'), ('i16', 'EU32')]:
+        for (le, re) in ([(-2, -3)] if not t else [(-2, -3), (0, 0), (3, -1)]):
+            lines.append('P(%s, %d, %s, %d, 2)' % (l, le, r, re))
     return lines
 
 
